@@ -64,9 +64,23 @@ class FnTr:
         """`e as T`"""
         c = self.c
         ts = tystr.strip()
+        kdep = ts in ('$kind', '$ kind', '$') or ts in c.generic_map
         if ts in ('$kind', '$ kind', '$'):
             ts = c.kind or 'f64'
         target = self.tr.rust_ty(ts, c)
+        if kdep and target in ('nat', 'int'):
+            # the width of the observation type is a parameter of the model (`kbits`)
+            c.uses_kbits = True
+            if t == 'real':
+                self.tr.cur_notes.append('float -> $kind cast: truncating, saturating at the width of the kind')
+                return (f'(satNat kbits (RealLike.toNat {s}))', 'nat') if target == 'nat' else (f'(satInt kbits (RealLike.toInt {s}))', 'int')
+            if t in ('nat', 'int'):
+                self.tr.cur_notes.append('integer -> $kind cast: wrapping at the width of the kind')
+                if target == 'nat':
+                    src = s if t == 'nat' else f'(Int.toNat (({s}) % ((2:Int)^kbits)))'
+                    return f'(wrapNat kbits {src})', 'nat'
+                src = s if t == 'int' else f'(Int.ofNat {s})'
+                return f'(wrapInt kbits {src})', 'int'
         if target == t:
             # same class: width change. nat -> narrower nat wraps; model it when the target kind is narrower than 64
             if t in ('nat', 'int') and ts in BITS and BITS[ts] < 64:
@@ -962,6 +976,8 @@ class FnTr:
                     raise Unsupported(f'mutating call on {tcur}')
                 lean, ptys, rty = self.tr.request(tcur[1], name, c.kind)
                 argstrs = self.call_args(args, ptys)
+                if self.tr.defs[lean].get('kbits'):
+                    argstrs = [self.kbits_arg(self.tr.defs[lean])] + argstrs
                 call = f'({lean} {cur} {" ".join(argstrs)})' if argstrs else f'({lean} {cur})'
                 # result is the new state (unit fns) / Except state / (state × value)
                 if is_struct(rty):
